@@ -106,6 +106,10 @@ pub fn run(p: &Program, record: bool) -> RunResult {
                 stats.dispatches += *iters as u64;
                 do_run(&sim, &mut lp, *timeout, *iters);
             }
+            Op::BlockOn { pendings, self_wake, max_iters } => {
+                stats.dispatches += *max_iters as u64;
+                do_block_on(&sim, &mut lp, *pendings, *self_wake, *max_iters);
+            }
             _ => crate::ops::exec_op(&sim, op, false),
         }
         if sim.is_dead() {
@@ -302,6 +306,88 @@ fn do_run(sim: &Rc<Sim>, lp: &mut Option<EventLoop<'static, Tag>>, t: Timeout, i
         Ok(Err(e)) => {
             sim.trace(|| format!("  run -> Err({})", e));
             after_dispatch(sim, t, false, Some(e.to_string()), t_start.get(), sim.now_ns());
+        }
+    }
+}
+
+/// EventLoop::block_on with a scripted future; every iteration is checked like a dispatch.
+fn do_block_on(sim: &Rc<Sim>, lp: &mut Option<EventLoop<'static, Tag>>, pendings: u32, self_wake: bool, max_iters: u32) {
+    struct F {
+        left: u32,
+        self_wake: bool,
+        polls: Rc<std::cell::Cell<u32>>,
+    }
+    impl std::future::Future for F {
+        type Output = u32;
+        fn poll(mut self: std::pin::Pin<&mut Self>, cx: &mut std::task::Context<'_>) -> std::task::Poll<u32> {
+            self.polls.set(self.polls.get() + 1);
+            if self.left == 0 {
+                return std::task::Poll::Ready(42);
+            }
+            self.left -= 1;
+            if self.self_wake {
+                // the yield_now pattern: wake during the poll, return Pending
+                cx.waker().wake_by_ref();
+            }
+            std::task::Poll::Pending
+        }
+    }
+    let Some(l) = lp.as_mut() else { return };
+    let Some(signal) = sim.st.borrow().signal.clone() else { return };
+    let max_iters = max_iters.clamp(1, 8);
+    let polls = Rc::new(std::cell::Cell::new(0u32));
+    let fut = F { left: pendings.min(4), self_wake, polls: polls.clone() };
+    let t_start = std::cell::Cell::new(sim.now_ns());
+    let count = std::cell::Cell::new(0u32);
+    let stopped = std::cell::Cell::new(false);
+    pre_dispatch(sim);
+    let mut tag = Tag(sim.tag);
+    let sim2 = sim.clone();
+    let r = catch_unwind(AssertUnwindSafe(|| {
+        l.block_on(fut, &mut tag, |_| {
+            sim2.hk.borrow_mut().in_dispatch = false;
+            let now = sim2.now_ns();
+            // block_on waits with no timeout of its own
+            after_dispatch(&sim2, Timeout::None, true, None, t_start.get(), now);
+            count.set(count.get() + 1);
+            if count.get() >= max_iters || sim2.is_dead() {
+                stopped.set(true);
+                signal.stop();
+            } else {
+                t_start.set(now);
+                pre_dispatch(&sim2);
+            }
+        })
+    }));
+    sim.hk.borrow_mut().in_dispatch = false;
+    match r {
+        Err(p) => sim.violate("dispatch.panic", vec!["block_on".into()], format!("block_on() panicked: {}", panic_msg(&p))),
+        Ok(Err(e)) => {
+            sim.trace(|| format!("  block_on -> Err({})", e));
+            after_dispatch(sim, Timeout::None, false, Some(e.to_string()), t_start.get(), sim.now_ns());
+        }
+        Ok(Ok(out)) => {
+            sim.trace(|| format!("  block_on -> {:?} after {} iterations, {} polls", out, count.get(), polls.get()));
+            let needed = pendings.min(4) + 1;
+            match out {
+                Some(42) => {
+                    if polls.get() != needed {
+                        sim.violate("blockon.result", vec![], format!("block_on returned Some after {} polls, the future needs {}", polls.get(), needed));
+                    }
+                }
+                None => {
+                    if !stopped.get() {
+                        sim.violate("blockon.result", vec!["none_without_stop".into()], "block_on returned None although stop() was never requested".into());
+                    } else if self_wake && polls.get() < needed.min(count.get()) {
+                        // a future that wakes itself during every poll is polled once per iteration
+                        sim.violate("blockon.lost_wake", vec!["self_wake".into()], format!("the future woke itself during each poll but was polled only {} times in {} iterations", polls.get(), count.get()));
+                    }
+                }
+                Some(x) => sim.violate("blockon.result", vec![], format!("block_on returned Some({})", x)),
+            }
+            if !sim.is_dead() {
+                sim.rule_ok(&["C11"], 112);
+            }
         }
     }
 }
